@@ -9,7 +9,7 @@ U = Fraction(1, 2 ** 53)
 
 
 def knot_seq(rng, n):
-    style = rng.choice(["monotone", "oscillating", "plateau", "collinear", "nearly_collinear", "uneven", "offset", "random", "zigzag", "gentle", "huge"])
+    style = rng.choice(["monotone", "oscillating", "plateau", "collinear", "nearly_collinear", "uneven", "offset", "random", "zigzag", "gentle", "huge", "tiny_scale", "origin"])
     xs = []
     x = rng.choice([0.0, rng.uniform(-2, 2)])
     if style == "offset":
@@ -37,6 +37,23 @@ def knot_seq(rng, n):
         j = rng.choice([0, 0, n - 1, n - 1, rng.randint(0, n - 1)])
         ys[j] = rng.choice([-1.0, 1.0]) * big
         return style, [[C.bits(a), C.bits(b)] for a, b in zip(xs, ys)]
+    if style == "tiny_scale":
+        # the whole abscissa axis in a tiny unit: every dx is far below machine epsilon but the data are perfectly conditioned
+        unit = rng.choice([1e-17, 2.0 ** -56, 2.0 ** -80, 3e-19])
+        x = rng.choice([0.0, unit * rng.randint(-3, 3)])
+        xs = []
+        for i in range(n):
+            x += unit * rng.choice([1.0, 2.0, 0.5, 3.0])
+            xs.append(x)
+    if style == "origin":
+        # a knot exactly at 0.0 (first or interior), spacing not 1
+        j = rng.choice([0, 0, rng.randrange(n - 1)])
+        steps = [rng.choice([2.0, 0.5, 3.0, 1.5, 0.25]) for _ in range(n)]
+        xs = [0.0] * n
+        for i in range(j + 1, n):
+            xs[i] = xs[i - 1] + steps[i]
+        for i in range(j - 1, -1, -1):
+            xs[i] = xs[i + 1] - steps[i]
     ys = []
     y = rng.uniform(-3, 3)
     s_lin = rng.choice([0.5, -2.0, 1.0 / 3.0, 1e-8, 3.0])
@@ -142,7 +159,7 @@ class P(Prop):
                 "C04_coefficient_float", "C04_cubic_deviation", "C04_interpolation_float"]
     KERNELS = ["spline::f_dx", "spline::segment", "spline::f_x0", "spline::f_xn"]
     RULE = ("constrained_spline on 3..12 (thorough ..100) knots with strictly increasing x: monotone, oscillating, zig-zag, plateaued, "
-            "collinear, nearly collinear, unevenly spaced (gap ratios up to 2^12), offset up to 2^20, gentle slopes (~1e-8), ordinates up to 1.1e308 over wide intervals "
+            "collinear, nearly collinear, unevenly spaced (gap ratios up to 2^12), offset up to 2^20, a knot exactly at 0, abscissae in units of 1e-17..2^-80 (every dx << eps), gentle slopes (~1e-8), ordinates up to 1.1e308 over wide intervals "
             "(non-finite output is a violation when the documented construction is finite in binary64); "
             "bit-exact model vs crate incl. the kernels f_dx / segment on their own; exact-rational oracle: end verbatim, "
             "interpolation, knot slopes = harmonic mean / end rule, derivative continuity, all within 256*2^-53*(magnitudes*"
